@@ -219,7 +219,10 @@ class pCN(Sampler):
     def single_update(self, x_t, loglike_eval_t):
         # propose state
         xi = self.prior.sample(1).flatten()   # sample from the prior
-        x_star = np.sqrt(1-self.scale**2)*x_t + self.scale*xi   # pCN proposal
+        # pCN proposal: the autoregressive step acts on the deviation from the prior mean,
+        # which makes the proposal reversible with respect to the prior
+        mean = getattr(self.prior, 'mean', 0) # a user-defined prior (sampling function only) is assumed to be centred
+        x_star = mean + np.sqrt(1-self.scale**2)*(x_t - mean) + self.scale*(xi - mean)
 
         # evaluate target
         loglike_eval_star =  self._loglikelihood(x_star) 
